@@ -842,6 +842,7 @@ func (r *runner) settle() ([]frame, []verdict) {
 // code alone: monitors on the frames, and the client's map against the broker's state.  Returns verdicts (violations)
 // and whether a final comparison was possible.
 func (r *runner) freeRun(maxResub int) ([]verdict, string) {
+	r.freeAll()
 	r.mu.Lock()
 	r.gates = nil
 	r.mu.Unlock()
@@ -1395,6 +1396,54 @@ func probe(_ json.RawMessage, res *vh.Result) error {
 	}
 	res.Extra["contig"] = rep.Error != nil && rep.Error.Code == 112
 	res.Extra["reply"] = cl.Describe(rep)
+
+	// second question: does the live transition drop buffered publications at or before its position?
+	// (publish held on the wire, state read sees it, delivery inside the buffering window)
+	r2 := &runner{w: w, ch: "probe2", mode: "per", kind: "fresh", page: 2, ssize: 2, ktag: map[int]string{1: "keep", 2: "keep"},
+		deliveries: map[int]delivery{}, epochs: map[string]int{}, cmdIDs: map[uint32]string{}, refreshAt: -1}
+	w.runners.Store(r2.ch, r2)
+	r2.conn = conn
+	r2.rc = freshClient()
+	r2.curID = 1
+	if _, err := w.env.Node.MapPublish(ctx, r2.ch, "k1", centrifuge.MapPublishOptions{Data: []byte("1")}); err != nil {
+		return err
+	}
+	if !r2.captured(1) {
+		return fmt.Errorf("probe2: publication not captured")
+	}
+	r2.newGates("sp")
+	id2 := conn.NextID()
+	done := make(chan struct{})
+	r2.cmdDone = done
+	go func() {
+		defer close(done)
+		conn.Do(&protocol.Command{Id: id2, Subscribe: &protocol.SubscribeRequest{Channel: r2.ch, Type: int32(centrifuge.SubscriptionTypeMap), Phase: centrifuge.MapPhaseState, Limit: 2}})
+	}()
+	for _, want := range []string{"sr", "sp", "g1", "g3", "idle"} {
+		got := r2.waitEvent()
+		if got != want {
+			r2.freeAll()
+			return fmt.Errorf("probe2: subscriber at %q, expected %q", got, want)
+		}
+		if want == "g1" {
+			d := r2.deliveries[1]
+			if err := w.gb.handler.HandlePublication(r2.ch, d.pub, d.sp, false, nil); err != nil {
+				return err
+			}
+		}
+		if want != "idle" {
+			r2.mu.Lock()
+			g := r2.gates[want]
+			r2.mu.Unlock()
+			g.free()
+		}
+	}
+	rep2 := conn.WaitReply(id2, 3*time.Second)
+	if rep2 == nil || rep2.Subscribe == nil {
+		return fmt.Errorf("probe2: no subscribe reply")
+	}
+	res.Extra["dropstale"] = len(rep2.Subscribe.Publications) == 0
+	res.Extra["reply2"] = cl.Describe(rep2)
 	res.Done(1, 1)
 	return nil
 }
